@@ -1,6 +1,7 @@
 (* Dispatcher used by the correspondence runner: probe name + generic argument -> generic result.
    All glue between the text protocol and the model lives here, in Gallina. *)
-From MD Require Import Lib.Base Lib.Latin1 Model.Node Model.Keyword Model.Engine.
+From MD Require Import Lib.Base Lib.Latin1 Model.Node Model.Keyword Model.Engine Model.Reference.
+From MD Require Import Model.Flatten Model.Json Model.Query Model.Dec.Carets.
 
 Definition bad_args : pval := VErr (L"bad-args").
 
@@ -28,6 +29,33 @@ Definition table_of_val (v : pval) : list (bytes * list node) :=
 
 Definition scan_node_z (search : bytes -> list node) (depth : Z) (n : node) : res node :=
   if depth <=? 0 then Ok n else scan_node search (Z.to_nat depth) n.
+
+Fixpoint val_of_jv (j : jv) : pval :=
+  match j with
+  | JStr s => VStr s
+  | JInt z => VInt z
+  | JArr l => VList [VStr (L"arr"); VList (map val_of_jv l)]
+  | JObj fs => VList [VStr (L"obj"); VList (map (fun kv => VList [VStr (fst kv); val_of_jv (snd kv)]) fs)]
+  end.
+
+Fixpoint jv_of_val (v : pval) : jv :=
+  match v with
+  | VStr s => JStr s
+  | VInt z => JInt z
+  | VList [VStr tag; VList items] =>
+      if beqb tag (L"arr") then JArr (map jv_of_val items)
+      else JObj (map (fun kv => match kv with
+                                | VList [VStr k; x] => (k, jv_of_val x)
+                                | _ => ([], JInt 0) end) items)
+  | _ => JInt 0
+  end.
+
+(* list(node): depth-first pre-order, root excluded *)
+Fixpoint preorder_nodes (n : node) : list node :=
+  match n with Node _ _ _ _ _ ks => flat_map (fun c => c :: preorder_nodes c) ks end.
+
+Definition header_val (n : node) : pval :=
+  VList [VStr (n_ty n); VBytes (n_val n); VStr (n_obf n); VInt (n_st n); VInt (n_en n)].
 
 Definition probe (name : list N) (arg : pval) : pval :=
   if beqb name (L"find_keywords") then
@@ -60,4 +88,35 @@ Definition probe (name : list N) (arg : pval) : pval :=
     match arg with
     | VList hs => vnodes (sort_hits (map node_of_val hs))
     | _ => bad_args end
+  else if beqb name (L"ref_scan_node") then
+    match arg with
+    | VList [tbl; VInt depth; n] =>
+        if depth <=? 0 then VList [VStr (L"ok"); val_of_node (node_of_val n)] else
+        val_of_res (fun t => val_of_node (erase t))
+                   (ref_scan_node (table_search (table_of_val tbl)) (Z.to_nat depth) KRoot 0 0 (node_of_val n))
+    | _ => bad_args end
+  else if beqb name (L"flatten") then VBytes (flatten (node_of_val arg))
+  else if beqb name (L"squash_replace") then
+    match arg with
+    | VList [VBytes data; VList tree] => VBytes (squash_replace data (map node_of_val tree))
+    | _ => bad_args end
+  else if beqb name (L"node_to_dict") then val_of_jv (node_to_dict (node_of_val arg))
+  else if beqb name (L"as_node") then val_of_res val_of_node (as_node (jv_of_val arg))
+  else if beqb name (L"json_roundtrip") then val_of_res val_of_node (as_node (node_to_dict (node_of_val arg)))
+  else if beqb name (L"node_eqb") then
+    match arg with
+    | VList [a; b] => VBool (node_eqb (node_of_val a) (node_of_val b))
+    | _ => bad_args end
+  else if beqb name (L"string_summary") then VList (map VStr (string_summary (node_of_val arg)))
+  else if beqb name (L"py_repr") then
+    match arg with VBytes b => VStr (py_repr b) | _ => bad_args end
+  else if beqb name (L"preorder") then VList (map header_val (preorder_nodes (node_of_val arg)))
+  else if beqb name (L"strip_carets") then
+    match arg with VBytes b => val_of_res VBytes (strip_carets_impl b) | _ => bad_args end
+  else if beqb name (L"cmd_unescape") then
+    match arg with VBytes b => VBytes (cmd_unescape b) | _ => bad_args end
+  else if beqb name (L"deobfuscate_cmd") then
+    match arg with VBytes b => val_of_res (fun p => VList [VBytes (fst p); VStr (snd p)]) (deobfuscate_cmd b) | _ => bad_args end
+  else if beqb name (L"paren_cut") then
+    match arg with VBytes b => VInt (paren_cut b) | _ => bad_args end
   else VErr (L"unknown-probe").
